@@ -83,8 +83,8 @@ func init() {
 	props["C14"] = &PropSpec{ID: "C14",
 		Uses: []Use{
 			{Rule: "ERR-1", Filter: and(lib, not(constructHas("os.", "io/fs.")))},
-			{Rule: "ERR-2", Floors: map[string]int{"sink:defaultSpreaderSimple": 1, "sink:defaultGrowSpreaderSimple": 1, "sink:colorizeSpreaderSimple": 2, "sink:formattedSpreaderSimple": 2, "sink:formattedSpreaderPipeline": 1, "sink:colorizeSpreaderPipeline": 2, "sink:defaultSpreader": 2, "sink:jsonSpreader": 1}},
-			{Rule: "ERR-3", Floors: map[string]int{"scan": 5}},
+			{Rule: "ERR-2", Floors: map[string]int{"sink": 4}},
+			{Rule: "ERR-3", Floors: map[string]int{"scan": 3}},
 			{Rule: "EFF-8", Filter: role("writer")},
 		},
 		Decides:    "every error value produced on a library path (every write to the caller's io.Writer, every bufio.Scanner, every stage error channel) is propagated unchanged or wrapped with %w up to the API result — none is dropped, merely tested, or replaced; every Scan loop is followed by Err() on the same scanner; the CLI hands os.Stdout/color.Output to the library unwrapped.",
@@ -92,10 +92,10 @@ func init() {
 	}
 	props["C11"] = &PropSpec{ID: "C11",
 		Uses: []Use{
-			{Rule: "CONC-1", Floors: map[string]int{"select-send": 5, "select-recv": 8, "send-plain": 3}},
-			{Rule: "CONC-2", Floors: map[string]int{"chan": 14}},
-			{Rule: "CONC-3", Floors: map[string]int{"operation": 8, "stage": 10, "collector": 1}},
-			{Rule: "CONC-4", Floors: map[string]int{"worker": 6, "access": 5}},
+			{Rule: "CONC-1", Floors: map[string]int{"select-send": 3, "select-recv": 4, "send-plain": 2}},
+			{Rule: "CONC-2", Floors: map[string]int{"chan": 7}},
+			{Rule: "CONC-3", Floors: map[string]int{"operation": 4, "stage": 5, "collector": 1}},
+			{Rule: "CONC-4", Floors: map[string]int{"worker": 3, "access": 3}},
 			{Rule: "ERR-1", Filter: and(lib, pipelineFuncs)},
 		},
 		Decides:    "no channel operation of the massive mode can block forever once the operation's context is cancelled (every send/select/receive has a ctx.Done() alternative or is a single send into a buffered channel); the context every stage waits on is the one derived and cancelled (deferred) by the operation; the error collector waits on the errgroup's context so the first error releases the rest; channels are closed once by their owner after its workers were joined; fields shared by concurrently running workers are written only under the owner's mutex.",
@@ -103,9 +103,9 @@ func init() {
 	}
 	props["C12"] = &PropSpec{ID: "C12",
 		Uses: []Use{
-			{Rule: "NIL-1", Floors: map[string]int{"handover-chan": 6, "handover-seq": 8, "handover-return": 2}},
-			{Rule: "NIL-3", Floors: map[string]int{"massive": 1, "iter": 2}},
-			{Rule: "NIL-4", Floors: map[string]int{"bce": 8, "assert": 5, "div": 2}},
+			{Rule: "NIL-1", Floors: map[string]int{"handover-chan": 3, "handover-seq": 4, "handover-return": 1}},
+			{Rule: "NIL-3", Floors: map[string]int{"massive": 1, "iter": 1}},
+			{Rule: "NIL-4", Floors: map[string]int{"bce": 4, "assert": 3, "div": 1}},
 			{Rule: "EFF-7"},
 			{Rule: "PAIR-7"},
 			{Rule: "CONC-2"},
@@ -123,8 +123,8 @@ func init() {
 			{Rule: "NIL-1", Filter: role("handover-chan")},
 			{Rule: "ERR-1", Filter: and(lib, pipelineFuncs)},
 			{Rule: "TAB-2", Filter: role("split", "table")},
-			{Rule: "SPLIT-1", Floors: map[string]int{"split": 3}},
-			{Rule: "SIB-6", Floors: map[string]int{"reuse": 5}},
+			{Rule: "SPLIT-1", Floors: map[string]int{"split": 2}},
+			{Rule: "SIB-6", Floors: map[string]int{"reuse": 3}},
 			{Rule: "SIB-5", Filter: funcHas("Pipeline")},
 			{Rule: "PAIR-3", Filter: funcHas("Pipeline")},
 		},
@@ -133,8 +133,8 @@ func init() {
 	}
 	props["C07"] = &PropSpec{ID: "C07",
 		Uses: []Use{
-			{Rule: "EFF-4", Floors: map[string]int{"gate": 6, "validate": 2, "validate-call": 1, "encode": 12, "forward": 1}},
-			{Rule: "EFF-5", Floors: map[string]int{"path": 3, "target": 2}},
+			{Rule: "EFF-4", Floors: map[string]int{"gate": 3, "validate": 1, "validate-call": 1, "encode": 6, "forward": 1}},
+			{Rule: "EFF-5", Floors: map[string]int{"path": 2, "target": 1}},
 			{Rule: "EFF-2"},
 			{Rule: "TAB-6", Filter: and(func(o Ob) bool { return o.Role == "grower-flag" || (o.Role == "factory" && strings.Contains(o.Construct, "grower factory")) }, cfgIs("D"))},
 		},
@@ -144,9 +144,9 @@ func init() {
 	props["C09"] = &PropSpec{ID: "C09",
 		Uses: []Use{
 			{Rule: "EFF-1", Filter: role("entry-readonly", "cli-readonly")},
-			{Rule: "EFF-3", Floors: map[string]int{"gate": 4, "cli-gate": 2}},
+			{Rule: "EFF-3", Floors: map[string]int{"gate": 2, "cli-gate": 1}},
 			{Rule: "EFF-2"},
-			{Rule: "TAB-6", Filter: and(func(o Ob) bool { return o.Role == "factory" || o.Role == "factory-args" || o.Role == "grower-flag" }, cfgIs("D")), Floors: map[string]int{"factory": 4, "grower-flag": 2}},
+			{Rule: "TAB-6", Filter: and(func(o Ob) bool { return o.Role == "factory" || o.Role == "factory-args" || o.Role == "grower-flag" }, cfgIs("D")), Floors: map[string]int{"factory": 2, "grower-flag": 1}},
 			{Rule: "TAB-3", Filter: and(role("pred", "users", "ext"), cfgIs("D"))},
 			{Rule: "PAIR-5", Filter: cfgIs("D")},
 			{Rule: "SIB-3", Filter: and(role("report", "row"), cfgIs("D"), funcHas("olorize"))},
@@ -156,8 +156,8 @@ func init() {
 	}
 	props["C06"] = &PropSpec{ID: "C06",
 		Uses: []Use{
-			{Rule: "EFF-6", Floors: map[string]int{"exists": 2}},
-			{Rule: "EFF-2", Floors: map[string]int{"site": 2}},
+			{Rule: "EFF-6", Floors: map[string]int{"exists": 1}},
+			{Rule: "EFF-2", Floors: map[string]int{"site": 1}},
 			{Rule: "EFF-5", Filter: funcHas("Mkdirer")},
 			{Rule: "ERR-1", Filter: funcHas("Mkdirer", "mkdir")},
 			{Rule: "TAB-3", Filter: cfgIs("D"), Floors: map[string]int{"pred": 1, "users": 1, "kind": 1}},
@@ -174,7 +174,7 @@ func init() {
 			{Rule: "EFF-4", Filter: and(role("gate", "encode"), funcHas("erify"))},
 			{Rule: "EFF-5", Filter: funcHas("Verifier")},
 			{Rule: "ERR-1", Filter: funcHas("Verifier", "verify", "sendErr", "handlePipelineErr")},
-			{Rule: "TAB-4", Floors: map[string]int{"verdict": 2, "sets": 2}},
+			{Rule: "TAB-4", Floors: map[string]int{"verdict": 1, "sets": 1}},
 			{Rule: "CONC-4", Filter: and(role("access"), funcHas("erifier"))},
 			{Rule: "SIB-4", Filter: funcHas("fillDirsMarkdown")},
 			{Rule: "GLOB-3", Filter: and(cfgIs("D"), constructHas("setPath"))},
@@ -186,26 +186,26 @@ func init() {
 	props["C16"] = &PropSpec{ID: "C16",
 		Uses: []Use{
 			{Rule: "ERR-1", Filter: scope("cli")},
-			{Rule: "EFF-8", Floors: map[string]int{"stdout": 3, "writer": 2}},
+			{Rule: "EFF-8", Floors: map[string]int{"stdout": 2, "writer": 1}},
 			{Rule: "EFF-1", Filter: role("cli-readonly")},
 			{Rule: "EFF-3", Filter: role("cli-gate")},
-			{Rule: "TAB-7", Floors: map[string]int{"exit": 1, "code": 5, "wire": 6, "action": 4}},
+			{Rule: "TAB-7", Floors: map[string]int{"exit": 1, "code": 3, "wire": 3, "action": 2}},
 		},
 		Decides:    "main exits non-zero whenever app.Run fails and every cli.Exit code is a non-zero constant; every error from a library call, os.Open, option parsing and the template printer in package main is returned (wrapped by an exit-coder); flags are wired to the matching library options whose values reach the library call; package main prints nothing itself on the output/mkdir/verify routes and hands os.Stdout/color.Output to the library unwrapped; read-only subcommands reach no mutation; mkdir creates only without --dry-run and rejects stray arguments.",
 		NotDecided: "urfave/cli's own parsing, the rendered text of `template | output`, closed-stdout semantics of the OS, crashes (C12's rules cover the library routes).",
 	}
 	props["C01"] = &PropSpec{ID: "C01",
 		Uses: []Use{
-			{Rule: "SIB-3", Filter: and(role("row", "fact"), cfgIs("D")), Floors: map[string]int{"row": 3, "fact": 4}},
-			{Rule: "C01-SEL", Filter: cfgIs("D"), Floors: map[string]int{"select": 2, "walkup": 1, "last": 1, "path": 3}},
-			{Rule: "SIB-4", Filter: cfgIs("D"), Floors: map[string]int{"traversal": 9}},
-			{Rule: "PAIR-1", Floors: map[string]int{"insert": 2, "lookup": 1}},
-			{Rule: "PAIR-2", Floors: map[string]int{"link": 2, "level": 1}},
-			{Rule: "GLOB-3", Filter: cfgIs("D"), Floors: map[string]int{"accumulate": 4}},
-			{Rule: "C01-NAME", Floors: map[string]int{"name": 5}},
+			{Rule: "SIB-3", Filter: and(role("row", "fact"), cfgIs("D")), Floors: map[string]int{"row": 2, "fact": 2}},
+			{Rule: "C01-SEL", Filter: cfgIs("D"), Floors: map[string]int{"select": 1, "walkup": 1, "last": 1, "path": 2}},
+			{Rule: "SIB-4", Filter: cfgIs("D"), Floors: map[string]int{"traversal": 5}},
+			{Rule: "PAIR-1", Floors: map[string]int{"insert": 1, "lookup": 1}},
+			{Rule: "PAIR-2", Floors: map[string]int{"link": 1, "level": 1}},
+			{Rule: "GLOB-3", Filter: cfgIs("D"), Floors: map[string]int{"accumulate": 2}},
+			{Rule: "C01-NAME", Floors: map[string]int{"name": 3}},
 			{Rule: "TAB-6", Filter: and(role("factory-args", "grower-formats"), cfgIs("D"))},
 			{Rule: "TAB-6", Filter: and(func(o Ob) bool { return o.Role == "factory" }, cfgIs("D"), constructHas("grower factory"))},
-			{Rule: "PARSE-1", Floors: map[string]int{"learn": 4}},
+			{Rule: "PARSE-1", Floors: map[string]int{"learn": 2}},
 			{Rule: "TAB-1", Filter: role("parse-always")},
 			{Rule: "SIB-5", Filter: and(cfgIs("D"), constructHas("classified"))},
 		},
@@ -214,9 +214,9 @@ func init() {
 	}
 	props["C02"] = &PropSpec{ID: "C02",
 		Uses: []Use{
-			{Rule: "SIB-5", Floors: map[string]int{"line-loop": 28}},
-			{Rule: "PAIR-3", Floors: map[string]int{"attach": 1, "attach-caller": 4}},
-			{Rule: "TAB-1", Floors: map[string]int{"map": 3, "blank": 2}},
+			{Rule: "SIB-5", Floors: map[string]int{"line-loop": 14}},
+			{Rule: "PAIR-3", Floors: map[string]int{"attach": 1, "attach-caller": 1}},
+			{Rule: "TAB-1", Floors: map[string]int{"map": 2, "blank": 1}},
 			{Rule: "TAB-2", Filter: role("split", "table")},
 			{Rule: "NIL-1", Filter: role("handover-return")},
 			{Rule: "SPLIT-1"},
@@ -227,8 +227,8 @@ func init() {
 	}
 	props["C03"] = &PropSpec{ID: "C03",
 		Uses: []Use{
-			{Rule: "PAIR-4", Floors: map[string]int{"validate-first": 10, "sentinel": 1}},
-			{Rule: "SIB-1", Floors: map[string]int{"alias": 9}},
+			{Rule: "PAIR-4", Floors: map[string]int{"validate-first": 5, "sentinel": 1}},
+			{Rule: "SIB-1", Floors: map[string]int{"alias": 5}},
 			{Rule: "PAIR-1", Filter: funcHas("Add", "findChildByText")},
 			{Rule: "PAIR-2", Filter: funcHas("Add", "isDirectlyUnder")},
 			{Rule: "SIB-3", Filter: and(funcHas("assembleAndPrint", "defaultSpreaderSimple).spreadBranch"), cfgIs("D"))},
@@ -242,22 +242,22 @@ func init() {
 	}
 	props["C04"] = &PropSpec{ID: "C04",
 		Uses: []Use{
-			{Rule: "TAB-6", Filter: role("tags", "encode", "factory"), Floors: map[string]int{"tags": 4, "encode": 2, "factory-nop": 2}},
-			{Rule: "EFF-4", Filter: role("encode-kept"), Floors: map[string]int{"encode-kept": 4}},
-			{Rule: "PAIR-6", Floors: map[string]int{"encoder": 10}},
-			{Rule: "SIB-4", Filter: funcHas("toFormattedNode", "toJSONNode"), Floors: map[string]int{"traversal": 2}},
+			{Rule: "TAB-6", Filter: role("tags", "encode", "factory"), Floors: map[string]int{"tags": 2, "encode": 1, "factory-nop": 1}},
+			{Rule: "EFF-4", Filter: role("encode-kept"), Floors: map[string]int{"encode-kept": 2}},
+			{Rule: "PAIR-6", Floors: map[string]int{"encoder": 5}},
+			{Rule: "SIB-4", Filter: funcHas("toFormattedNode", "toJSONNode"), Floors: map[string]int{"traversal": 1}},
 			{Rule: "ERR-1", Filter: and(scope("lib"), funcHas("formattedSpreader", "jsonSpreader"))},
-			{Rule: "NIL-4", Filter: funcHas("toFormattedNode", "getChild", "toJSONNode")},
+			{Rule: "NIL-4", Filter: funcHas("toFormattedNode", "jsonNode)", "tomlNode)", "yamlNode)", "toJSONNode")},
 		},
 		Decides:    "records are tagged value/children in all three formats; the encode constant selects the encoder of the matching package; one encoder is constructed per call (outside the per-root loop) and Encode is called per root; the tree copy uses one index for source and copy and preserves order and nesting; encoder errors propagate. (Thin claim: the encoders' own quoting is not analysed.)",
 		NotDecided: "that encoding/json, yaml.v3 and go-toml quote every hostile name correctly and that decoding yields equal strings (library behaviour on run-time values; a hand-written Marshaler would not be analysed); TOML for multi-root input.",
 	}
 	props["C05"] = &PropSpec{ID: "C05",
 		Uses: []Use{
-			{Rule: "SIB-3", Filter: and(role("accessor", "fact"), cfgIs("D")), Floors: map[string]int{"accessor": 6}},
-			{Rule: "ERR-4", Floors: map[string]int{"callback": 8}},
-			{Rule: "PAIR-7", Floors: map[string]int{"yield": 6, "yield-exempt": 3}},
-			{Rule: "SIB-4", Filter: funcHas("walkNode", "assemble"), Floors: map[string]int{"traversal": 3}},
+			{Rule: "SIB-3", Filter: and(role("accessor", "fact"), cfgIs("D")), Floors: map[string]int{"accessor": 3}},
+			{Rule: "ERR-4", Floors: map[string]int{"callback": 4}},
+			{Rule: "PAIR-7", Floors: map[string]int{"yield": 3, "yield-exempt": 2}},
+			{Rule: "SIB-4", Filter: funcHas("walkNode", "assemble"), Floors: map[string]int{"traversal": 2}},
 			{Rule: "NIL-3", Filter: role("iter")},
 			{Rule: "C01-SEL", Filter: and(role("path"), cfgIs("D"))},
 			{Rule: "GLOB-3", Filter: cfgIs("D")},
@@ -270,16 +270,16 @@ func init() {
 	}
 	props["C13"] = &PropSpec{ID: "C13",
 		Uses: []Use{
-			{Rule: "GLOB-1", Floors: map[string]int{"global": 8, "summary": 2}},
-			{Rule: "GLOB-3", Floors: map[string]int{"accumulate": 8}},
-			{Rule: "PAIR-4", Filter: role("lazy"), Floors: map[string]int{"lazy": 2}},
+			{Rule: "GLOB-1", Floors: map[string]int{"global": 4, "summary": 1}},
+			{Rule: "GLOB-3", Floors: map[string]int{"accumulate": 4}},
+			{Rule: "PAIR-4", Filter: role("lazy"), Floors: map[string]int{"lazy": 1}},
 		},
 		Decides:    "no value derived from mutable package-level state (a variable assigned outside init, written through, or handed to a mutating method — counters, caches, pools, maps) reaches a branch condition, an output/filesystem call or an exported result; the per-node branch/path cache is cleared before it is rebuilt on every route, so repeating an operation repeats its result.",
 		NotDecided: "concurrent Add on the same tree from several goroutines (unsupported by design), external global configuration (color.NoColor), state kept in objects the caller passes in.",
 	}
 	props["C15"] = &PropSpec{ID: "C15",
 		Uses: []Use{
-			{Rule: "TAB-2", Floors: map[string]int{"table": 2, "loop": 1, "split": 2}},
+			{Rule: "TAB-2", Floors: map[string]int{"table": 1, "loop": 1, "split": 1}},
 			{Rule: "TAB-1", Filter: role("blank", "parse-always")},
 			{Rule: "PARSE-1"},
 			{Rule: "SIB-5", Filter: func(o Ob) bool { return strings.Contains(o.Construct, "blank lines") || strings.Contains(o.Construct, "classified") }},
@@ -289,10 +289,10 @@ func init() {
 	}
 	props["C17"] = &PropSpec{ID: "C17",
 		Uses: []Use{
-			{Rule: "SIB-2", Floors: map[string]int{"twin": 13, "shared": 8, "partition": 1}},
-			{Rule: "SIB-3", Filter: or(cfgIs("W"), role("report")), Floors: map[string]int{"row": 3, "report": 6}},
-			{Rule: "SIB-4", Filter: cfgIs("W"), Floors: map[string]int{"traversal": 4}},
-			{Rule: "PAIR-5", Floors: map[string]int{"count": 4, "colorize": 4}},
+			{Rule: "SIB-2", Floors: map[string]int{"shared": 10, "partition": 1, "reject-set": 1}},
+			{Rule: "SIB-3", Filter: or(cfgIs("W"), role("report")), Floors: map[string]int{"row": 2, "report": 3}},
+			{Rule: "SIB-4", Filter: cfgIs("W"), Floors: map[string]int{"traversal": 2}},
+			{Rule: "PAIR-5", Floors: map[string]int{"count": 2, "colorize": 2}},
 			{Rule: "TAB-6", Filter: or(cfgIs("W"), role("tags"))},
 			{Rule: "C01-SEL", Filter: cfgIs("W")},
 			{Rule: "GLOB-3", Filter: cfgIs("W")},
@@ -304,7 +304,7 @@ func init() {
 			{Rule: "NIL-1", Filter: cfgIs("W")},
 			{Rule: "PAIR-6", Filter: cfgIs("W")},
 		},
-		Decides:    "the tinywasm generator, grower and factories are line-for-line (canonical SSA) the default build's; shared files are compiled into both variants; the variant's baked-in row term composed with its concatenating printer equals the default row term; the dry-run report and summary have the same term (newline placement differs but composes equally) and counters are reset per root and incremented once per node by the shared predicate; JSON tags and copy order agree; the variant's own error, scanner, attach and nil disciplines hold.",
-		NotDecided: "equality on colour escape codes (the variant colours names before the branch is baked), TinyGo's runtime and standard library versus Go's, pairs outside the table; a structurally different but equivalent rewrite of one twin is reported as divergence by design.",
+		Decides:    "the error origins (constant messages and sentinels) reachable from the variant's Output are exactly the default build's; every same-named function the variant reaches is the same definition compiled into both variants; the variant's baked-in row term composed with its concatenating printer equals the default row term; the dry-run report and summary have the same term (newline placement differs but composes equally) and counters are reset per root and incremented once per node by the shared predicate; JSON tags and copy order agree; the variant's own error, scanner, attach and nil disciplines hold.",
+		NotDecided: "equality on colour escape codes (the variant colours names before the branch is baked), TinyGo's runtime and standard library versus Go's, control flow of the variant-only functions beyond what the per-variant rules (scanner, attach, nil, error, factory and row-term rules run on the tinywasm build) decide.",
 	}
 }
